@@ -45,8 +45,8 @@ REQUIRED_EVENTS = {"any": ["mcf.check.capacity", "mcf.check.balance", "mcf.check
                            "ns.l2.pivot-checked", "ns.l2.final-checked", "ns.l2.thread-preorder",
                            "ns.l2.tree-arc-reduced-cost-zero"]}
 
-# step budgets: F_ref = largest fuel of one call on the unchanged tree (seeds 0-4, both tiers): networks with
-# n <= 14: < 4k, solve_assignment up to 9x9: < 9k, "larger" (10-30 nodes): < 60k.  Budget >= 50 x F_ref.
+# step budgets: F_ref = largest fuel of one call on the unchanged tree (quick seeds 0-4, thorough seeds 0 and 2):
+# networks with n <= 14: < 5k, solve_assignment up to 9x9: < 9k, "larger" (10-30 nodes): < 32k.  Budget >= 50 x F_ref.
 BUDGET_SMALL = 300_000
 BUDGET_ASSIGN = 600_000
 BUDGET_LARGE = 3_000_000
@@ -57,7 +57,7 @@ _ns = None
 _mon = None
 _Status = None
 _shrink = {"hang": False, "yielded": 0}   # minimising a hang re-runs the budget many times: bounded separately
-SHRINK_HANG_MAX = 24
+SHRINK_HANG_MAX = 8
 
 
 def setup():
